@@ -2,6 +2,8 @@ from props import *  # noqa: F401,F403
 
 # ------------------------------------------------------------------------------------------------
 rc_bin("c10_rc", ["harness/c10_context.cc"], lib=False)
+# the thread programs once more under ThreadSanitizer (thorough tier only)
+rc_bin("c10_rc_tsan", ["harness/c10_context.cc"], lib=False, san="tsan")
 PROPS["C10"] = dict(
     level_text="Model-based property tests over generated operation histories (rapidcheck, ASan/UBSan; real threads "
                "for the isolation clause): every explored history agreed with a persistent-map model of the context "
@@ -14,5 +16,8 @@ PROPS["C10"] = dict(
         run("stack", "c10_rc", "rt_stack", "rc", dict(procs=6, cases=4000), dict(procs=16, cases=40000)),
         run("threads", "c10_rc", "rt_threads", "rc", dict(procs=4, cases=1500), dict(procs=8, cases=20000),
             deterministic=False),
+        run("threads-tsan", "c10_rc_tsan", "rt_threads", "rc", None, dict(procs=4, cases=4000),
+            deterministic=False),
+        run("stack-tsan", "c10_rc_tsan", "rt_stack", "rc", None, dict(procs=2, cases=4000)),
     ],
 )
